@@ -5,6 +5,7 @@ import (
 	"fmt"
 	"io"
 	"testing"
+	"testing/iotest"
 
 	"github.com/ipfs/go-cid"
 	"github.com/ipfs/go-unixfsnode/data/builder"
@@ -129,6 +130,26 @@ func TestC07(t *testing.T) {
 					c.Violation("C07|root-differs|huge", "%d bytes, width %d, %s: builder (%s, %d), reference (%s, %d); %s", hc.n, hc.w, hc.ch, l, size, rroot, rsize, firstDagDifference(walkerFor(st), walkerFor(ref), linkCid(l), rroot, "root", 0))
 				}
 				c.Sig(fmt.Sprintf("huge|w%d|%d", hc.w, hc.n>>30), true)
+			})
+		}
+	}
+	// a source that fails after delivering part of the content: the reference importer reports the
+	// error, so must the builder (whatever the kind of error, including ones that wrap io.EOF)
+	for i, kind := range []error{store.ErrInjected, fmt.Errorf("source truncated: %w", io.EOF), io.ErrUnexpectedEOF, fmt.Errorf("wrapped: %w", io.ErrUnexpectedEOF), io.ErrClosedPipe} {
+		for _, at := range []int{0, 1, 7, 16, 100, 1357} {
+			i, kind, at := i, kind, at
+			r.Case(fmt.Sprintf("source-fails/kind%d/at%d", i, at), map[string]any{"error": kind.Error(), "after_bytes": at}, func(c *mon.Case) {
+				content := gen.Content(c.Rand(), "rand", at)
+				mk := func() io.Reader { return io.MultiReader(bytes.NewReader(content), iotest.ErrReader(kind)) }
+				var berr, rerr error
+				var l ipld.Link
+				withWidth(3, func() { l, _, berr = builder.BuildUnixFSFile(mk(), "size-16", store.New().LinkSystem(false)) })
+				_, _, rerr = oracle.RefImport(store.New(), mk(), "size-16", 3, oracle.ImportMode{Layout: "balanced", RawLeaves: true, CidV1: true})
+				c.Count("source_failures_compared", 1)
+				if (berr == nil) != (rerr == nil) {
+					c.Violation("C07|source-error-disagrees", "source failing with %q after %d bytes: builder returned (%v, err %v), reference importer err %v", kind, at, l, berr, rerr)
+				}
+				c.Sig(fmt.Sprintf("source-fails|kind%d", i), true)
 			})
 		}
 	}
